@@ -12,7 +12,9 @@ RULE = ("random histories (up to 14 operations) over Qubit(), single/two-qubit g
         "create_context/recv_context, and flush; qubit budgets 1..5; generic and NV hardware configs, with and without "
         "the NV transpiler; the generator counts live handles itself and never exceeds the budget (budget-1 on NV). "
         "Oracle after every flush: no controller fault, and {q.qubit_id for q in connection.active_qubits} == "
-        "{v : unit_module[v] is not None}. Non-trivial = the history reused a virtual ID (allocation after a release) "
+        "{v : unit_module[v] is not None}."
+        ' A quarter of the histories follow an earlier host program on the same controller that closed while holding 0..budget qubits (same application id and budget). '
+        "Non-trivial = the history reused a virtual ID (allocation after a release) "
         "or contained an EPR request, and has >= 2 flushes; distinct = distinct history description.")
 ASSUMPTIONS = ["SDK-side refusals at build time (ValueError / AssertionError before anything is emitted) are counted, not judged: the property speaks about emitted subroutines",
                "known finding epr-context:placeholder-qubits-stay-active: after a sequential keep with post routine or a create/recv_context block the SDK keeps the request's handles active; such a history is judged up to and including that flush and then ends",
